@@ -101,7 +101,7 @@ def ode_ctor(method, rar=False):
                                     DG + "DataGeneratorODE.sample_in_time_domain", DG + "_check_and_set_rar_parameters"])
 
 
-def space_gen(ex, cls, dim, method, border, extra_pre, rar=False):
+def space_gen(ex, cls, dim, method, border, extra_pre, rar=False, cartesian=True):
     mins, maxs = (xmin, ymin)[:dim], (xmax, ymax)[:dim]
     kw = dict(key=Key(), n=n, nb=(2 * dim * nf if border else None), omega_batch_size=bx,
               omega_border_batch_size=(bb if border else None), dim=dim, min_pts=mins, max_pts=maxs, method=method)
@@ -111,6 +111,8 @@ def space_gen(ex, cls, dim, method, border, extra_pre, rar=False):
         kw.update(temporal_batch_size=bt, tmin=tmin, tmax=tmax, nt=nt)
         if rar:
             kw.update(nt_start=z3.Int("nt_start"))
+        if not cartesian:
+            kw.update(cartesian_product=False)
     if method == "grid" and dim == 2:
         ex.sqrt_of = [(n, s_)]
     return ex.construct(cls, [], kw, extra_pre)
@@ -206,6 +208,26 @@ def ctor_rejects(what):
     return FnObligation(name, run, [DG + "CubicMeshPDEStatio.__post_init__"])
 
 
+def paired_ctor_rejects(dim, what):
+    """paired (non cartesian) batches need equal batch sizes: the constructor refuses anything else"""
+    name = f"C08/CubicMeshPDENonStatio.__post_init__/raises.paired_batches_of_different_sizes[dim={dim},{what}]"
+    def run(seed):
+        t0 = time.time()
+        ex = Executor(SRC)
+        pre0 = [n >= 1, nt >= 1, nf >= 1, bb >= 1, bb <= nf, bx >= 1, bx <= n, bt >= 1, bt <= nt] + BOX
+        pre0 += {"time_vs_interior": [bt != bx], "time_vs_border": [bt == bx, bt != bb]}[what]
+        try:
+            space_gen(ex, "CubicMeshPDENonStatio", dim, "uniform", True, pre0, cartesian=False)
+            raised = None
+        except pyvc.PyRaise as e:
+            raised = e.exc_name
+        expect = "ValueError" if (what == "time_vs_interior" or dim > 1) else None      # in 1-D the border is the pair of end points
+        ok = raised == expect
+        return dict(status="discharged" if ok else "violated", backend="pyvc", failure="no-raise", solver_s=time.time() - t0,
+                    detail="" if ok else f"constructor outcome {raised}, expected {expect}", replay=dict(native_disagrees=False))
+    return FnObligation(name, run, [DG + "CubicMeshPDENonStatio.__post_init__"])
+
+
 # ------------------------------------------------------------------------------ batches
 
 def batch_shapes(cls, dim, cartesian=True):
@@ -220,9 +242,7 @@ def batch_shapes(cls, dim, cartesian=True):
         if cls == "DataGeneratorODE":
             rec = ex.construct("DataGeneratorODE", [Key(), nt, tmin, tmax, bt, "uniform"], {}, pre0)
         else:
-            rec = space_gen(ex, cls, dim, "uniform", True, pre0)
-            if not cartesian:
-                rec = rec.replace(cartesian_product=False)
+            rec = space_gen(ex, cls, dim, "uniform", True, pre0, cartesian=cartesian)
         (o,) = ex.call_method(rec, "get_batch")
         new, batch = o.value
         r = z3.Int("r")
@@ -423,6 +443,8 @@ def obligations(tier):
                 if not (method == "grid" and dim == 2 and tier == "quick"):
                     obs.append(space_ctor(cls, dim, method, False, rar=True))
     obs += [ctor_rejects("border_count_not_multiple_of_facets"), ctor_rejects("border_batch_larger_than_facet")]
+    obs += [paired_ctor_rejects(1, "time_vs_interior"), paired_ctor_rejects(2, "time_vs_interior"), paired_ctor_rejects(2, "time_vs_border"),
+            paired_ctor_rejects(1, "time_vs_border")]
     obs += [ctor_sentinels(cls, dim) for cls in ("CubicMeshPDEStatio", "CubicMeshPDENonStatio") for dim in (1, 2)]
     obs += [batch_shapes("DataGeneratorODE", 1), batch_shapes("CubicMeshPDEStatio", 1), batch_shapes("CubicMeshPDEStatio", 2),
             batch_shapes("CubicMeshPDENonStatio", 1), batch_shapes("CubicMeshPDENonStatio", 2),
